@@ -274,9 +274,14 @@ def account_row(c, addr):
     return found, fu, md
 
 
+def history_on(c, which):
+    return f"{which}_METADATA_HISTORY=DISABLED" not in c.features and c.features != "minimal"
+
+
 def meta_of_account(c, addr, pit):
     found, _, cur = account_row(c, addr)
-    if not pit:
+    if not pit or not history_on(c, "ACCOUNT"):
+        # without the history feature a point-in-time read can only see the current metadata (as C17/C35 read it)
         return cur
     f, best = c.meta_as_of(c.t["accounts_metadata"], "accounts_address", addr, c.pit)
     empty = V("json", {k: (z3.BoolVal(False), z3.StringVal("")) for k in sqltables.JSONKEYS})
@@ -352,7 +357,11 @@ def entities(c, resource, pit):
             if pit:
                 present = z3.And(present, col(tx, t, "timestamp").z <= c.pit)
             tid = col(tx, t, "id").z
-            if pit:
+            if pit and not history_on(c, "TRANSACTION"):
+                md = col(tx, t, "metadata")
+                rv = col(tx, t, "reverted_at")
+                rv = V("int", rv.z, z3.Or(rv.null, z3.Not(rv.z <= c.pit)))
+            elif pit:
                 f, best = c.meta_as_of(c.t["transactions_metadata"], "transactions_id", tid, c.pit)
                 empty = V("json", {k: (z3.BoolVal(False), z3.StringVal("")) for k in sqltables.JSONKEYS})
                 md = sqlsym.ite_v(f, best, empty)
@@ -402,6 +411,14 @@ def check_case(h, resource, case, ast, rec, crec, K, features, prefix, tag):
     label = f"{prefix}:{resource}{'[pit]' if pit else ''}-filter-selects-exactly-the-matching-entities{tag}"
     err = rec.get("error") or ""
     if not rec["sql"] or (err and err != "not found"):
+        from reads import refused_ok
+
+        class _C:
+            pass
+        cc = _C()
+        cc.features = features
+        if features != "default" and refused_ok(h, cc, rec, f"{resource}{'[pit]' if pit else ''}-filtered-read"):
+            return
         h.inconclusive.append(f"{label}: the store refused {json.dumps(case['filter'])}: {err}")
         return
     c = make_ctx(K, features, nleaves)
@@ -501,9 +518,15 @@ def run(repo, tier, out, props, resources):
     K = 2 if tier == "quick" else 3
     prefix = "C19" if props == {"C19"} else ("C35" if props == {"C35"} else "C20")
     feature_sets = ["default"]
+    if prefix == "C35":
+        from reads import FEATURE_SETS
+        feature_sets = [f for f in FEATURE_SETS if f != "default"]
     cases, asts = [], []
     for resource in resources:
         fam = family(resource, tier)
+        if prefix == "C35":
+            # per configuration: single leaves and their negations (the feature gates sit in the leaf resolvers and dataset builders)
+            fam = [a for a in fam if nleaves(a) == 1]
         for a in fam:
             for pit in ([False, True] if resource != "logs" else [False]):
                 if pit and tier == "quick" and nleaves(a) > 2:
@@ -522,9 +545,11 @@ def run(repo, tier, out, props, resources):
     hs = {}
     for i in range(0, len(cases), 2):
         case, rec, crec, ast = cases[i], recs[i], recs[i + 1], asts[i]
-        hn = f"FILTERS_{case['resource']}" + ("_alone" if case["alone"] else "")
+        hn = f"FILTERS_{case['resource']}" + ("_alone" if case["alone"] else "") + ("" if case["features"] == "default" else "_" + case["features"].replace("=", "_"))
         h = hs.setdefault(hn, Harness(hn))
         tag = "" if prefix != "C19" else "-on-this-ledger's-rows-only"
+        if prefix == "C35":
+            tag = "@" + case["features"]
 
         def do(c_K=K):
             check_case(h, case["resource"], case, ast, rec, crec if case["resource"] != "aggregated" else None, c_K, case["features"], prefix, tag)
